@@ -528,9 +528,9 @@ def check_api_lib(ctx, fam, ffis, libs, recipe):
 
 
 def correspond(ctx):
-    nf = ctx.n(6, 60)
+    nf = ctx.n(6, 200)
     for fid in range(nf):
-        run_family(ctx, ctx.rng, fid, api=(fid == 0) or (not ctx.quick and fid % 6 == 0))
+        run_family(ctx, ctx.rng, fid, api=(fid == 0) or (not ctx.quick and fid % 10 == 0))
     flush_model(ctx)
 
 
